@@ -15,6 +15,7 @@ CONSTANTS
   CancelCalls = {}
   EnvTClose = TRUE
   Coarse = TRUE
+  Eager = FALSE
   WithHist = FALSE
 VIEW ViewNoHist
 INVARIANTS ClosedRejects
